@@ -35,6 +35,16 @@ def generic_run(tier, seed, drv, *, monitors_on, corr, nested=True, flat=True, c
             SC.check_run(scn, run, drv, res, monitors_on=monitors_on, corr=corr, case_extra={"bus": b, "held_seed": sd}, with_real=with_real)
             if extra:
                 extra(scn, run, res, rng)
+        if i % 4 == 2 and "start_delays" not in scn:
+            # ... and through tickit's own loading path: configuration FILE -> read_configs -> build_simulation (one
+            # simulation or divided over several on one bus) -> TickitSimulation.run()
+            fs = SC.as_config_file(scn, rng)
+            b = rng.choice(("sync", "held", "internal"))
+            sd = rng.randrange(1 << 30)
+            run = run_scenario(fs, bus=b, seed=sd)
+            res.case(SC.scn_key(fs) + f"file:{b}", nontrivial=len(run["trace"].of("update")) > len(S.devices(fs)))
+            res.count("from-config-file" + ("-divided" if len(fs["from_file"]) > 1 else ""))
+            SC.check_run(fs, run, drv, res, monitors_on=monitors_on, corr=corr, case_extra={"bus": b, "held_seed": sd}, with_real=False)
     res.rule = rule or ("corpus + generated flat and nested simulations (DAG slices grouped into systems, depth <= 3, shared port names, fan-in/out, "
                         "periodic / one-shot / re-planned callbacks, repeating and omitted output values), each run on the real code under the "
                         "synchronous bus and seeded delaying-bus schedules; traces validated against the Lean model; non-trivial = at least one "
